@@ -476,3 +476,268 @@ def build():
     C.assume("the game-lifecycle clause (ball end / tilt / service / no game => disabled) is the config_spec default "
              "disable_events checked each run plus F2/A2/A3; it relies on C06's event order and is not a VC here")
     return C
+
+
+VP = "mpf/platforms/virtual.py"
+
+
+def build_extra():
+    """the layer below the devices: PlatformController.set_*_rule / clear_hw_rule (core/platform_controller.py) against
+    the platform interface, and the virtual platform's rule table (platforms/virtual.py) - so that the contracts the
+    device proofs assume are themselves proved for the virtual platform"""
+    C = ContractSet("C10", "platform controller and virtual platform: rules installed / removed exactly as returned")
+    C.strings = False
+    for nt in ("SwitchRuleSettings", "DriverRuleSettings", "PulseRuleSettings", "HoldRuleSettings", "EosRuleSettings",
+               "HardwareRule"):
+        C.namedtuples[nt] = extract.namedtuple_fields(PC, nt)
+    C.namedtuples["PulseSettings"] = extract.namedtuple_fields("mpf/platforms/interfaces/driver_platform_interface.py",
+                                                             "PulseSettings")
+    C.namedtuples["HoldSettings"] = extract.namedtuple_fields("mpf/platforms/interfaces/driver_platform_interface.py",
+                                                            "HoldSettings")
+
+    def dataclass_model(name, fields):
+        C.cls(name, fields={f: Opaque("Any") for f in fields})
+
+        def m(I, a, k):
+            I.ctx.fresh_n += 1
+            o = Obj(name, ObjS(name, {}), "%s#%d" % (name, I.ctx.fresh_n))
+            I.creating_new += 1
+            try:
+                for i, f in enumerate(fields):
+                    I.write_field(o, f, k.get(f, a[i] if i < len(a) else NONE))
+            finally:
+                I.creating_new -= 1
+            return VObj(o)
+        C.globals[name] = VFn("model", model=m)
+    dataclass_model("SwitchSettings", ("hw_switch", "invert", "debounce"))
+    dataclass_model("DriverSettings", ("hw_driver", "pulse_settings", "hold_settings", "recycle"))
+    dataclass_model("RepulseSettings", ("enable_repulse", "debounce_ms"))
+    C.cls("HwSwitch", fields=dict(number=Int))
+    C.cls("HwDriver", fields=dict(number=Int))
+    C.cls("Platform", fields=dict(features=Rec(hardware_eos_repulse=Bool)))
+    KINDS = ("pulse_on_hit", "delayed_pulse_on_hit", "pulse_on_hit_and_release", "pulse_on_hit_and_enable_and_release",
+             "pulse_on_hit_and_release_and_disable", "pulse_on_hit_and_enable_and_release_and_disable")
+
+    def plat_set(kind):
+        def m(I, env, a, k):
+            emit(I, "platform.set", kind=kind, args=a, platform=env["self"].ref)
+            return NONE
+        return m
+    for kd in KINDS:
+        C.ext("Platform.set_%s_rule" % kd, model=plat_set(kd), trusted_reason="platform interface (virtual platform: below)")
+    C.ext("Platform.clear_hw_rule", model=lambda I, env, a, k: (emit(I, "platform.clear", switch=a[0], driver=a[1],
+                                                                     platform=env["self"].ref), NONE)[1],
+          trusted_reason="platform interface (virtual platform: below)")
+    PLAT = ObjS("Platform", C.classes["Platform"].fields)
+
+    def the_platform(I, name):
+        """switch and coil of a rule are on the same platform (the code refuses anything else): one platform object
+        per path, since objects never alias symbolically"""
+        d = I.__dict__
+        if "c10_platform" not in d:
+            d["c10_platform"] = VObj(Obj("Platform", PLAT, "the_platform"))
+        return d["c10_platform"]
+    C.cls("Switch", fields=dict(hw_switch=ObjS("HwSwitch", number=Int), invert=Bool, name=Str,
+                                platform=Init(the_platform)))
+    C.cls("Driver", fields=dict(hw_driver=ObjS("HwDriver", number=Int), name=Str, platform=Init(the_platform),
+                                config=Rec(psu=ObjS("PSU"))))
+    C.cls("PSU", fields={})
+    C.ext("Driver.get_and_verify_pulse_ms", model=lambda I, env, a, k: VInt(z3.Int(I.fresh_name("pulse_ms"))),
+          trusted_reason="driver limits (verified under C08)")
+    C.ext("Driver.get_and_verify_pulse_power", model=lambda I, env, a, k: VReal(z3.Real(I.fresh_name("pulse_power"))),
+          trusted_reason="driver limits (verified under C08)")
+    C.ext("Driver.get_and_verify_hold_power", model=lambda I, env, a, k: VReal(z3.Real(I.fresh_name("hold_power"))),
+          trusted_reason="driver limits (verified under C08)")
+    C.cls("SwitchController", fields={})
+
+    def add_sw(I, env, a, k):
+        I.ctx.fresh_n += 1
+        key = VOpaque("SwitchKey", z3.Const("swkey!%d" % I.ctx.fresh_n, usort("SwitchKey")))
+        emit(I, "add_switch_handler", key=key, kwargs=k)
+        return key
+    C.ext("SwitchController.add_switch_handler", model=add_sw, trusted_reason="switch controller (C03)")
+    C.ext("SwitchController.add_switch_handler_obj", model=add_sw, trusted_reason="switch controller (C03)")
+    C.ext("SwitchController.remove_switch_handler_by_key",
+          model=lambda I, env, a, k: (emit(I, "remove_switch_handler", key=a[0]), NONE)[1],
+          trusted_reason="switch controller (C03)")
+    C.ext("SwitchController.remove_switch_handler_by_keys",
+          model=lambda I, env, a, k: (emit(I, "remove_switch_handlers", keys=a[0]), NONE)[1],
+          trusted_reason="switch controller (C03)")
+    C.cls("BcpInterface", fields={})
+    C.ext("BcpInterface.send_driver_event", model=common.noop, trusted_reason="BCP monitoring notification")
+    C.cls("SoftwareEosRepulseManager", file=PC, fields=dict(machine=Opaque("Any"), _handlers=Opaque("Any")))
+    C.ext("SoftwareEosRepulseManager.stop", model=lambda I, env, a, k: (emit(I, "sw_eos.stop"), NONE)[1],
+          trusted_reason="software EOS repulse (its four switch handlers are removed; not under contract)")
+    C.globals["SoftwareEosRepulseManager"] = VFn("model", model=lambda I, a, k: (
+        emit(I, "sw_eos.create"), VObj(Obj("SoftwareEosRepulseManager", ObjS("SoftwareEosRepulseManager", {}),
+                                           I.fresh_name("sw_eos"))))[1])
+    C.cls("MpfController", fields={})
+    MACH = ObjS("MachineController", switch_controller=ObjS("SwitchController"),
+                bcp=ObjS("Bcp", interface=ObjS("BcpInterface")))
+    C.cls("PlatformController", file=PC, bases=["MpfController"], fields=dict(machine=MACH))
+    for h in ("_check_and_get_platform", "_get_configured_switch", "_get_configured_driver_with_hold",
+              "_get_configured_driver_no_hold", "_setup_switch_callback_for_psu", "_get_repulse_settings"):
+        C.fn("PlatformController." + h, inline=True, no_inv=True)
+    C.ext("PlatformController._notify_psu_about_pulse", model=common.noop, trusted_reason="PSU notification callback")
+
+    def one_platform(I):
+        """switch and driver objects of the rule settings share one platform (else the code raises)"""
+        return None
+    SW = lambda nm: TupleS(ObjS("Switch", C.classes["Switch"].fields), Bool, Bool, ntname="SwitchRuleSettings",
+                           fields=tuple(C.namedtuples["SwitchRuleSettings"][0]))
+    DRV = TupleS(ObjS("Driver", C.classes["Driver"].fields), Bool, ntname="DriverRuleSettings",
+                 fields=tuple(C.namedtuples["DriverRuleSettings"][0]))
+    PULSE = Union(NoneT, TupleS(Opt(Real), Opt(Int), ntname="PulseRuleSettings",
+                                fields=tuple(C.namedtuples["PulseRuleSettings"][0])))
+    HOLD = Union(NoneT, TupleS(Opt(Real), ntname="HoldRuleSettings", fields=tuple(C.namedtuples["HoldRuleSettings"][0])))
+    EOS = Union(NoneT, TupleS(Bool, Int, ntname="EosRuleSettings", fields=tuple(C.namedtuples["EosRuleSettings"][0])))
+
+    def installed_as_returned(I, kind, *switches_and_driver):
+        """exactly one platform call of this kind, for the hw switch(es) and hw driver of the arguments, on the
+        driver's platform; the returned HardwareRule names exactly these switch settings and this driver setting"""
+        *sws, drv = switches_and_driver
+        evs = events_named(I, "platform.set")
+        if len(evs) != 1 or evs[0].args["kind"] != I.pyconst(I.force(kind)):
+            return VBool(False)
+        e = evs[0]
+        res = I.force(I.result)
+        if res.tag != "tuple" or res.ntname != "HardwareRule":
+            return VBool(False)
+        f = dict(zip(res.fields, res.items))
+        rs = I.container(I.force(f["switch_settings"]).ref).items
+        if len(rs) != len(sws):
+            return VBool(False)
+        d_obj = I.force(I.force(drv).items[0]).ref
+        conj = [z3.BoolVal(I.force(f["platform"]).ref is e.args["platform"])]
+        plat_args = [I.force(x) for x in e.args["args"]]
+        for i, sw in enumerate(sws):
+            s_obj = I.force(I.force(sw).items[0]).ref
+            hw = I.force(I.read_field(s_obj, "hw_switch")).ref
+            conj.append(z3.BoolVal(I.force(I.read_field(I.force(rs[i]).ref, "hw_switch")).ref is hw))
+            conj.append(z3.BoolVal(plat_args[i].ref is I.force(rs[i]).ref))
+        ds = I.force(f["driver_settings"])
+        conj.append(z3.BoolVal(I.force(I.read_field(ds.ref, "hw_driver")).ref is
+                               I.force(I.read_field(d_obj, "hw_driver")).ref))
+        conj.append(z3.BoolVal(plat_args[len(sws)].ref is ds.ref))
+        return VBool(z3.And(*conj))
+    C.helpers["installed_as_returned"] = installed_as_returned
+    C.helpers["n_platform_sets"] = lambda I: VInt(len(events_named(I, "platform.set")))
+    C.helpers["n_platform_clears"] = lambda I: VInt(len(events_named(I, "platform.clear")))
+    C.trace_helpers = {"installed_as_returned", "n_platform_sets", "n_platform_clears", "cleared_as_held",
+                       "n_sw_eos_stops", "n_psu_removed"}
+    SAMEP = ("switch and coil are on the same platform", "enable_switch.switch.platform is not None and "
+             "driver.driver.platform is enable_switch.switch.platform")
+    RAISES = {"AssertionError": True}
+    for kind, extra in (("pulse_on_hit", dict(pulse_setting=PULSE)),
+                        ("delayed_pulse_on_hit", dict(delay_ms=Int, pulse_setting=PULSE)),
+                        ("pulse_on_hit_and_release", dict(pulse_setting=PULSE)),
+                        ("pulse_on_hit_and_enable_and_release", dict(pulse_setting=PULSE, hold_settings=HOLD))):
+        C.fn("PlatformController.set_%s_rule" % kind,
+             params=dict(enable_switch=SW("enable"), driver=DRV, **extra), requires=[SAMEP],
+             ensures=[("PC1: the rule is written to the platform once, for exactly the (switch, coil) pair given, and "
+                       "the returned HardwareRule holds exactly what was written (so clear_hw_rule removes it)",
+                       "installed_as_returned('%s', enable_switch, driver)" % kind)],
+             modifies=[], raises=RAISES, ensures_exc=[("nothing is written when the parameters are refused",
+                                                       "n_platform_sets() == 0")])
+    for kind, extra in (("pulse_on_hit_and_release_and_disable", dict(pulse_setting=PULSE, eos_settings=EOS)),
+                        ("pulse_on_hit_and_enable_and_release_and_disable",
+                         dict(pulse_setting=PULSE, hold_settings=HOLD, eos_settings=EOS))):
+        C.fn("PlatformController.set_%s_rule" % kind,
+             params=dict(enable_switch=SW("enable"), eos_switch=SW("eos"), driver=DRV, **extra),
+             requires=[SAMEP, ("the EOS switch is on that platform too", "eos_switch.switch.platform is "
+                                                                         "driver.driver.platform")],
+             ensures=[("PC2: one platform call for the two pairs (button, coil) and (EOS, coil); the returned "
+                       "HardwareRule holds both switch settings", "installed_as_returned('%s', enable_switch, "
+                       "eos_switch, driver)" % kind)],
+             modifies=[], raises=RAISES, ensures_exc=[("nothing is written when the parameters are refused",
+                                                       "n_platform_sets() == 0")])
+
+    def rule_init(I, name):
+        n = 1 + I.ctx.fork(2)
+        plat = VObj(Obj("Platform", PLAT, name + ".platform"))
+        sws = [VObj(Obj("SwitchSettings", ObjS("SwitchSettings", hw_switch=ObjS("HwSwitch", number=Int), invert=Bool,
+                                               debounce=Bool), "%s.switch_settings[%d]" % (name, i))) for i in range(n)]
+        ds = VObj(Obj("DriverSettings", ObjS("DriverSettings", hw_driver=ObjS("HwDriver", number=Int)),
+                      name + ".driver_settings"))
+        key = NONE if I.ctx.fork(2) == 0 else VOpaque("SwitchKey", z3.Const(name + ".switch_key", usort("SwitchKey")))
+        sw_h = NONE if I.ctx.fork(2) == 0 else VObj(Obj("SoftwareEosRepulseManager",
+                                                        ObjS("SoftwareEosRepulseManager", {}), name + ".sw_eos"))
+        return VTuple([plat, I.new_list(sws, name + ".switch_settings"), ds, key, sw_h], "HardwareRule",
+                      tuple(C.namedtuples["HardwareRule"][0]))
+
+    def cleared_as_held(I, rule):
+        r = I.force(rule)
+        f = dict(zip(r.fields, r.items))
+        sws = I.container(I.force(f["switch_settings"]).ref).items
+        evs = events_named(I, "platform.clear")
+        if len(evs) != len(sws):
+            return VBool(False)
+        ok = all(I.force(e.args["switch"]).ref is I.force(s_).ref and I.force(e.args["driver"]).ref is
+                 I.force(f["driver_settings"]).ref and e.args["platform"] is I.force(f["platform"]).ref
+                 for e, s_ in zip(evs, sws))
+        return VBool(ok)
+    C.helpers["cleared_as_held"] = cleared_as_held
+    C.helpers["n_sw_eos_stops"] = lambda I: VInt(len(events_named(I, "sw_eos.stop")))
+    C.helpers["n_psu_removed"] = lambda I: VInt(len(events_named(I, "remove_switch_handler")))
+    C.fn("PlatformController.clear_hw_rule", params=dict(rule=Init(rule_init)),
+         loops={0: LoopSpec(invariant=[], unroll=True)},
+         ensures=[("PC3: every (switch, coil) pair the HardwareRule holds is cleared on its platform, each once; the PSU "
+                   "switch handler and the software EOS handlers are removed iff the rule has them",
+                   "cleared_as_held(rule) and n_psu_removed() == (1 if rule.switch_key is not None else 0) and "
+                   "n_sw_eos_stops() == (1 if rule.software_rule_handler is not None else 0)")],
+         modifies=[], raises={})
+
+    # ---- the virtual platform's rule table
+    C.cls("Logger", fields={})
+    C.ext("Logger.debug", model=common.noop, trusted_reason="logging")
+    def rules_init(I, name):
+        """the rule table: empty, holding a rule for the pair in question, or holding a rule for another pair"""
+        env = I.frames[0].env
+        sw = env.get("enable_switch", env.get("switch"))
+        hs = I.force(I.read_field(I.force(sw).ref, "hw_switch"))
+        hd = I.force(I.read_field(I.force(env["coil"]).ref, "hw_driver"))
+        v = I.ctx.fork(3)
+        if v == 0:
+            return I.new_dict([], name)
+        if v == 1:
+            return I.new_dict([((hs.ref, hd.ref), VStr("pulse_on_hit"))], name)
+        other = Obj("HwDriver", ObjS("HwDriver", number=Int), "another_driver")
+        return I.new_dict([((hs.ref, other), VStr("pulse_on_hit"))], name)
+    C.cls("VirtualHardwarePlatform", file=VP, fields=dict(rules=Init(rules_init), log=ObjS("Logger")),
+          check_bases=False)
+    SS = ObjS("SwitchSettings", hw_switch=ObjS("HwSwitch", number=Int), invert=Bool, debounce=Bool)
+    DS = ObjS("DriverSettings", hw_driver=ObjS("HwDriver", number=Int))
+    C.fn("VirtualHardwarePlatform._assert_rule_does_not_exist", inline=True, no_inv=True)
+
+    def rule_is(I, sw, drv, kind):
+        """the table holds exactly this kind of rule for the pair (kind None: no rule)"""
+        this = I.frames[0].env["self"].ref
+        c = I.container(I.force(I.read_field(this, "rules")).ref)
+        hs = I.force(I.read_field(I.force(sw).ref, "hw_switch")).ref
+        hd = I.force(I.read_field(I.force(drv).ref, "hw_driver")).ref
+        want = None if I.force(kind).tag == "none" else I.pyconst(I.force(kind))
+        for k, v in c.entries:
+            items = k if isinstance(k, tuple) else (I.force(k).items if isinstance(k, Val) and I.force(k).tag == "tuple"
+                                                    else ())
+            objs = [x.ref if isinstance(x, VObj) else x for x in items]
+            if len(objs) == 2 and objs[0] is hs and objs[1] is hd:
+                return VBool(want is not None and I.pyconst(I.force(v)) == want)
+        return VBool(want is None)
+    C.helpers["rule_is"] = rule_is
+    C.helpers["n_rules"] = lambda I: VInt(len(I.container(I.force(I.read_field(
+        I.frames[0].env["self"].ref, "rules")).ref).entries))
+    for kind in ("pulse_on_hit", "pulse_on_hit_and_release", "pulse_on_hit_and_enable_and_release"):
+        C.fn("VirtualHardwarePlatform.set_%s_rule" % kind, params=dict(enable_switch=SS, coil=DS),
+             ensures=[("V1: the pair gets exactly this rule; a pair that already has a rule is refused",
+                       "rule_is(enable_switch, coil, '%s') and n_rules() == old(n_rules()) + 1" % kind)],
+             raises={"AssertionError": "not rule_is(enable_switch, coil, None)"},
+             ensures_exc=[("a refused rule changes nothing", "n_rules() == old(n_rules())")],
+             modifies=["self.rules"])
+    C.fn("VirtualHardwarePlatform.clear_hw_rule", params=dict(switch=SS, coil=DS),
+         ensures=[("V2: the pair has no rule afterwards; other pairs keep theirs",
+                   "rule_is(switch, coil, None) and n_rules() >= old(n_rules()) - 1")],
+         modifies=["self.rules"], raises={})
+    C.assume("the devices' proofs (main set) use the platform controller through the contracts PC1-PC3 proved here; the "
+             "platform below it is the virtual platform (V1, V2); real hardware platforms are outside")
+    C.only_verify = [k for k, f in C.fns.items() if f.verified]
+    return [C]
